@@ -4,7 +4,7 @@ use crate::proto::Req;
 use crate::rng::Rng;
 pub use imp::run;
 
-pub const FNS: &[&str] = &["range", "linspace", "full", "empty", "collect", "try_collect", "write"];
+pub const FNS: &[&str] = &["range", "linspace", "full", "empty", "collect", "try_collect", "write", "C19rng"];
 pub const OUTC: &[&str] = &["vec", "deque", "nd"];
 pub const ITYPES: &[&str] = &["i32", "i64", "usize"];
 
@@ -65,6 +65,37 @@ where
     O: Vec1<T>,
 {
     guarded(|| contents::<T, O>(&<O as Vec1Create<T>>::range(Some(a), b, Some(step))))
+}
+
+/// relational run for element types / values the exact model has no reading of (f32, decimal
+/// fractions): `range(0, b, step)` judged in the element type's own arithmetic — every element is
+/// `step * i`, lies strictly before `b` in the direction of the step, and `step * len` does not
+fn range_check<T, O>(b: T, step: T) -> String
+where
+    T: Number + IsNone<Inner = T> + Tok + Copy,
+    usize: Cast<T>,
+    O: Vec1<T>,
+{
+    guarded(|| {
+        let zero = T::zero();
+        let o = <O as Vec1Create<T>>::range(Some(zero), b, Some(step));
+        let v: Vec<T> = o.titer().collect();
+        let before = |x: T| if step > zero { x < b } else { x > b };
+        for (i, x) in v.iter().enumerate() {
+            let want: T = step * Cast::<T>::cast(i);
+            if *x != want {
+                return format!("ELEM:{}", i);
+            }
+            if !before(*x) {
+                return format!("BEYOND:{}", i);
+            }
+        }
+        let next: T = step * Cast::<T>::cast(v.len());
+        if before(next) {
+            return format!("MISSING:{}", v.len());
+        }
+        "OK".to_string()
+    })
 }
 
 fn linspace_of<T, O>(a: T, b: T, n: usize) -> String
@@ -208,7 +239,12 @@ pub fn run(r: &Req) -> Option<String> {
     let oc = r.s("oc");
     let t = if r.s("t").is_empty() { "f64" } else { r.s("t") };
     Some(match r.f.as_str() {
+        "C19rng" => match t {
+            "f32" => by_cont!(oc, f32, O => range_check::<f32, O>(r.f64("b") as f32, r.f64("step") as f32)),
+            _ => by_cont!(oc, f64, O => range_check::<f64, O>(r.f64("b"), r.f64("step"))),
+        },
         "range" => match t {
+            "f32" => by_cont!(oc, f32, O => range_of::<f32, O>(r.f64("a") as f32, r.f64("b") as f32, r.f64("step") as f32)),
             "i32" => by_cont!(oc, i32, O => range_of::<i32, O>(r.i32("a"), r.i32("b"), r.i32("step"))),
             "i64" => by_cont!(oc, i64, O => range_of::<i64, O>(r.i64("a"), r.i64("b"), r.i64("step"))),
             "usize" => by_cont!(oc, usize, O => range_of::<usize, O>(r.usize("a"), r.usize("b"), r.usize("step"))),
@@ -279,8 +315,9 @@ pub fn valid_case(r: &Req) -> bool {
     let t = r.s("t");
     let int_ok = |k: &str| r.s(k).parse::<i64>().is_ok();
     match r.f.as_str() {
+        "C19rng" => r.f64("step") != 0. && r.f64("step").is_finite() && r.f64("b").is_finite(),
         "range" => {
-            if t == "f64" {
+            if t == "f64" || t == "f32" {
                 r.f64("step") != 0. && r.f64("step").is_finite() && r.f64("a").is_finite() && r.f64("b").is_finite()
             } else {
                 int_ok("a") && int_ok("b") && int_ok("step") && r.i64("step") != 0
@@ -312,18 +349,33 @@ pub fn generate(tier: &str, rng: &mut Rng) -> (Vec<String>, bool) {
     let nmax = if thorough { 10 } else { 8 };
     for oc in OUTC {
         // range: integers a, b, step in -r..=r, floats k/4
-        for t in ["i32", "i64", "usize", "f64"] {
+        for t in ["i32", "i64", "usize", "f64", "f32"] {
             for a in -r..=r {
                 for b in -r..=r {
                     for s in -r..=r {
                         if s == 0 || (t == "usize" && (a < 0 || b < 0 || s < 0)) {
                             continue;
                         }
-                        if t == "f64" {
-                            out.push(format!("range t=f64 oc={} a={} b={} step={}", oc, q4(a), q4(b), q4(s)));
+                        if t == "f64" || t == "f32" {
+                            out.push(format!("range t={} oc={} a={} b={} step={}", t, oc, q4(a), q4(b), q4(s)));
                         } else {
                             out.push(format!("range t={} oc={} a={} b={} step={}", t, oc, a, b, s));
                         }
+                    }
+                }
+            }
+        }
+        // range from 0 with decimal (not representable) end / step, f32 and f64, both directions:
+        // judged in the element type's own arithmetic (`C19rng`)
+        for t in ["f32", "f64"] {
+            for sn in [1i64, -1] {
+                for sk in [1i64, 2, 3, 5, 7, 15, 25, 110] {
+                    for m in 0..=(if thorough { 40 } else { 24 }) {
+                        // step = sk/100 (or /10 for the small ones), end = m * step and m * step +- a little
+                        let (step, end) = (format!("{}/100", sn * sk * 5), format!("{}/100", sn * sk * 5 * m));
+                        out.push(format!("C19rng t={} oc={} b={} step={}", t, oc, end, step));
+                        out.push(format!("C19rng t={} oc={} b={} step={}", t, oc, format!("{}/1000", sn * (sk * 50 * m + 1)), step));
+                        out.push(format!("C19rng t={} oc={} b={} step={}", t, oc, format!("{}/1000", sn * (sk * 50 * m - 1)), step));
                     }
                 }
             }
